@@ -116,6 +116,7 @@ if spec and spec != "none" and (inst == 1 or env.get("NLVERIF_COP_SECOND", "heal
         log("bad-fault-spec " + spec)
         os._exit(99)
 fired = False
+served = 0            # replies written completely by this instance
 
 try:
     with open(env["NLVERIF_COP_TABLE"]) as f:
@@ -150,6 +151,16 @@ def raw_write(data):
     except OSError as ex:
         log("write-failed errno=%d" % ex.errno)
         leave(0)
+
+
+def try_write(data):
+    """Best effort write that never ends the process (used by the kinds that must stay alive)."""
+    try:
+        while data and stdout_open:
+            n = os.write(1, data)
+            data = data[n:]
+    except OSError as ex:
+        log("write-failed errno=%d (staying alive)" % ex.errno)
 
 
 def hdr(typ, length, version=1):
@@ -275,8 +286,17 @@ def fire(typ, payload, already=0, pending=False):
     if kind == "close_stdin_alive":
         close_fd(0)
         if pending:
-            raw_write(payload[already:] if already else hdr(typ, len(payload)) + payload)
+            try_write(payload[already:] if already else hdr(typ, len(payload)) + payload)
             log("pending message completed")
+        else:
+            # post_ready / post_reply: the VM's next request may have been written just before the close.
+            # It is lost with the pipe; so that the VM is not left waiting on a live, silent peer the
+            # answer to that request (by position in the table) is sent unsolicited a little later.
+            time.sleep(0.15)
+            vals = list(TABLE.values())
+            if served < len(vals):
+                try_write(hdr(RESULT, len(vals[served])) + vals[served])
+                log("unsolicited answer %d" % (served + 1))
         stubborn_wait("stdin closed by myself")
     if kind == "close_stdout_alive":
         close_fd(1)
@@ -309,6 +329,7 @@ def lookup(payload):
 
 
 def main():
+    global served
     nreq = 0
     if hit("pre_ready", 1):
         fire(READY, b"", pending=True)
@@ -358,6 +379,7 @@ def main():
                 fire(RESULT, value, already=half, pending=True)
                 continue
             send(RESULT, value)
+            served = nreq
             log("reply %d" % nreq)
             if hit("post_reply", nreq):
                 fire(RESULT, b"\x01" + struct.pack("<q", 0))
